@@ -43,6 +43,10 @@ After a write that raised nothing more is demanded of that record (the property 
 Cases whose region has a feature under which a clause is known to fail on the pinned tree (see
 `_RecordRun.tags`, RELEVANT) are reported as '<clause>@<tag+tag>', all others under the bare clause name;
 FINDING_CLASSES only ever match the '@' names.
+
+A case is the spec plus "region" (index) and "tags" (the input description, recomputed on replay); a
+stored witness may carry "only": [clauses] to restrict what `replay` reports. `replay` writes the earlier
+regions of the record first, from the same SeqRecord, as the run does.
 """
 from __future__ import annotations
 
@@ -203,7 +207,7 @@ class _RecordRun:
     def __init__(self, spec: dict) -> None:
         from bounded import _c10_factory as factory, _c10_observe as observe
         from bounded.C10 import missing_links
-        self.spec = {k: v for k, v in spec.items() if k not in ("tags", "region")}
+        self.spec = {k: v for k, v in spec.items() if k not in ("tags", "region", "only")}
         self.record = factory.build(self.spec)
         if self.spec.get("relink"):
             for area, cds in missing_links(self.record):
@@ -669,7 +673,16 @@ def run_shard(shard: dict, run: Any) -> None:
 
 
 def replay(case: dict) -> list[str]:
-    return run_record(case, None, only=int(case.get("region", 0)))
+    import logging
+    logging.disable(logging.CRITICAL)
+    failed = run_record(case, None, only=int(case.get("region", 0)))
+    # a stored witness may name the clauses it is a witness for ("only": ["sequence", ...]); other
+    # clauses (possibly failing for another known reason in the same region) are then not reported
+    wanted = case.get("only")
+    if wanted:
+        failed = [line for line in failed if line.split(":", 1)[0].split("@", 1)[0] in wanted
+                  or line.startswith("factory could not")]
+    return failed
 
 
 # input features under which a clause is known to fail on the pinned tree: such cases are counted under
